@@ -4,6 +4,7 @@ import (
 	"encoding/json"
 	"errors"
 	"fmt"
+	"hash/crc32"
 	"time"
 
 	"github.com/rs/zerolog"
@@ -116,7 +117,15 @@ func (f *samplerFam) play(l *Line, out *rec) error {
 		}
 		built = true
 		logger = zerolog.New(w).Level(zerolog.Level(c.LL))
-		if root != nil {
+		if crc32.ChecksumIEEE([]byte(l.ID))%3 == 1 {
+			// one history in three: the logger descends from a silenced one (a package-level logger switched off, a request logger
+			// switched on again): Level only sets the level - the descendant is sampled like any other logger
+			logger = zerolog.New(w).Level(zerolog.Disabled)
+			if root != nil {
+				logger = logger.Sample(root)
+			}
+			logger = logger.With().Logger().Level(zerolog.Level(c.LL))
+		} else if root != nil {
 			logger = logger.Sample(root)
 		}
 	}
